@@ -275,6 +275,10 @@ fn run_case(case: &J) -> Result<J, String> {
         .unwrap_or_default();
     let mut names = vec![];
     for e in &errors {
+        // warnings / advice do not stop `veryl synth`; only error-severity diagnostics reject the design
+        if matches!(miette::Diagnostic::severity(e), Some(miette::Severity::Warning) | Some(miette::Severity::Advice)) {
+            continue;
+        }
         let d = format!("{e:?}");
         let name: String = d.chars().take_while(|c| c.is_alphanumeric() || *c == '_').collect();
         if !allow.contains(&name) {
